@@ -13,6 +13,7 @@
 //       getProcessedSnapshotRecord
 //   <id> img body=<hex> recorded=<hex>      isCompleteSnapshotImage on header+body
 //   <id> loc exists=<0|1> entries=<hexname:f|d,...|->   getSnapshotFilepath
+//   <id> ext files=<hexpath:size,..|-> entries=<hexname:f|d:size,..|->   hasAllExternalFiles
 //   <id> ls db=pebble|tan imp=<index>,<term>,<type> | op ; op ...
 //       ops: state <term> <vote> <commit> / ents <first> <count> <term> /
 //            snap <index> <term> / boot <join> <type> / reopen
@@ -157,6 +158,8 @@ func run(a vh.Args) {
 			runImg(id, rest, obs, st)
 		case "loc":
 			runLoc(id, rest, obs, st)
+		case "ext":
+			runExt(id, rest, obs, st)
 		case "ls":
 			runLS(id, rest, obs, st)
 		case "e2e":
